@@ -241,7 +241,105 @@ def _AC2BO(AC: np.ndarray[tuple[N, N], np.dtype[np.int8]],
             ):
                 best_BO = BO.copy()
 
+        # The pairing heuristic above raises the bond orders of one set of
+        # disjoint bonds at a time and misses assignments in which an atom
+        # needs two of its bonds raised (two cumulated units, S(VI), P(V)),
+        # depending on the order of the atoms. Before these valences are
+        # given up, the bond orders are searched for directly.
+        BO = _search_BO(AC, UA, DU_from_AC)
+        if BO is not None and _BO_is_OK(
+            BO,
+            AC,
+            charge,
+            DU_from_AC,
+            atomic_valence_electrons,
+            atom_nrs,
+            valences,
+            allow_charged_fragments=allow_charged_fragments,
+        ):
+            return BO, atomic_valence_electrons
+
     return best_BO, atomic_valence_electrons
+
+
+def _search_BO(AC: np.ndarray[tuple[N, N], np.dtype[np.int8]],
+               UA: Sequence[int],
+               DU: Sequence[int],
+               ) -> None | np.ndarray[tuple[N, N], np.dtype[np.int8]]:
+    """Depth-first search for bond orders that use up the degree of
+    unsaturation of every unsaturated atom exactly. The most constrained
+    atom is served first, so that ordinary molecules need no backtracking;
+    the search is given up after a number of steps proportional to the
+    number of unsaturated atoms.
+
+    :return: bond order matrix or None if there is none (or none was found)
+    """
+    if not UA:
+        return None
+    left = dict(zip(UA, DU))
+    nbrs = {i: [j for j in UA if AC[i, j] == 1] for i in UA}
+
+    # every group of connected unsaturated atoms has to share an even
+    # number of electrons
+    seen: set[int] = set()
+    for i in UA:
+        if i in seen:
+            continue
+        group, todo = {i}, [i]
+        while todo:
+            for j in nbrs[todo.pop()]:
+                if j not in group:
+                    group.add(j)
+                    todo.append(j)
+        seen |= group
+        if sum(left[j] for j in group) % 2:
+            return None
+
+    def most_constrained() -> tuple[None | int, list[int]]:
+        atom, partners = None, []
+        for i in UA:
+            if left[i] == 0:
+                continue
+            candidates = [j for j in nbrs[i] if left[j] > 0]
+            if atom is None or len(candidates) < len(partners):
+                atom, partners = i, candidates
+                if len(partners) <= 1:
+                    break
+        return atom, partners
+
+    BO = AC.copy()
+    max_steps = max(1000, 50 * len(UA))
+    steps = 0
+    # frames: atom, its possible partners, index of the partner in use
+    stack: list[list] = [[*most_constrained(), -1]]
+    while stack:
+        steps += 1
+        if steps > max_steps:
+            return None
+        frame = stack[-1]
+        atom, partners, k = frame
+        if k >= 0:
+            j = partners[k]
+            left[atom] += 1
+            left[j] += 1
+            BO[atom, j] -= 1
+            BO[j, atom] -= 1
+        k += 1
+        if k == len(partners):
+            stack.pop()
+            continue
+        frame[2] = k
+        j = partners[k]
+        left[atom] -= 1
+        left[j] -= 1
+        BO[atom, j] += 1
+        BO[j, atom] += 1
+        next_atom, next_partners = most_constrained()
+        if next_atom is None:
+            return BO
+        stack.append([next_atom, next_partners, -1])
+    return None
+
 
 def _get_UA(maxValence_list: Sequence[int], valence_list: list[int]
             ) -> tuple[list[int], list[int]]:
